@@ -21,12 +21,16 @@ import errno
 import json
 import os
 import shutil
+import sys
+import types
 import tempfile as _real_tempfile
 
 import yaml as _pyyaml
 
+from treadmill import context
 from treadmill import eventmgr
 from treadmill import fs
+from treadmill import utils
 from treadmill import zknamespace as z
 from treadmill import zkutils
 
@@ -44,6 +48,23 @@ except AttributeError:  # pragma: no cover
 BASE_MS = 1578268800 * 1000
 
 _BROKEN = object()
+
+
+def _tmp_base():
+    """Where the per-case treadmill roots live. rmdir/mkdir on the ext4 /tmp
+    of the sandbox cost milliseconds each (40% of a case), so a tmpfs is
+    preferred when there is one; VERIF_TMPDIR overrides. The roots are removed
+    at the end of every case either way."""
+    forced = os.environ.get('VERIF_TMPDIR')
+    if forced:
+        return forced
+    shm = '/dev/shm'
+    if os.path.isdir(shm) and os.access(shm, os.W_OK | os.X_OK):
+        return shm
+    return None
+
+
+TMP_BASE = _tmp_base()
 
 
 class InjectedFault(OSError):
@@ -139,7 +160,7 @@ class World(object):
 
     def __init__(self, case):
         self.case = case
-        self.root = _real_tempfile.mkdtemp(prefix='c12-')
+        self.root = _real_tempfile.mkdtemp(prefix='c12-', dir=TMP_BASE)
         try:
             self.evmgr = eventmgr.EventMgr(root=self.root)
             self.cache = self.evmgr.tm_env.cache_dir
@@ -225,6 +246,13 @@ class World(object):
                 fh.write(dot['text'])
             self.prior_dot[dot['name']] = dot['text']
 
+        if case.get('presence'):
+            self.zk.create(z.path.server_presence(self.host), b'{}',
+                           ephemeral=True, makepath=True)
+        if case.get('placement_root') is False:
+            assert not self.zk.get_children(z.path.placement(self.host))
+            self.zk.delete(z.path.placement(self.host))
+
         self.allowed = set(self.prior) | set(self.expected)
         self._accepted = {}
         # name -> everything the dump function emitted in a finished dump
@@ -308,11 +336,18 @@ class Controller(object):
         self.emitted = []         # the pieces of the current dump
         self.writes = 0           # write_safe calls seen
         self.tmp_ino = None
+        self.violation = None     # the first one seen at a point
 
     def point(self, label, raisable=True):
         index = len(self.points)
         self.points.append((label, raisable))
-        self.world.check_observable('point %d (%s)' % (index, label))
+        if self.violation is not None:
+            return      # unwinding after a violation: keep the first report
+        try:
+            self.world.check_observable('point %d (%s)' % (index, label))
+        except Violation as vio:
+            self.violation = vio
+            raise
         if raisable and self.fault_at == index:
             self.fired = (index, label, self.write_bytes)
             raise InjectedFault(errno.ENOSPC,
@@ -466,13 +501,154 @@ class Hooks(object):
         return False
 
 
+# -- every file system operation of the agent, whoever performs it ----------
+# Python raises an audit event *before* each of these operations, so looking
+# at the directory at every event (and once more at the end) is looking at it
+# after every operation; raising from the hook makes the operation fail.
+FS_EVENTS = frozenset([
+    'open', 'tempfile.mkstemp', 'tempfile.mkdtemp', 'os.rename', 'os.remove',
+    'os.chmod', 'os.chown', 'os.mkdir', 'os.rmdir', 'os.link', 'os.symlink',
+    'os.truncate', 'os.utime', 'os.listdir', 'os.scandir', 'shutil.copyfile',
+    'shutil.copymode', 'shutil.copystat', 'shutil.move', 'shutil.rmtree',
+    'os.setxattr', 'os.removexattr',
+])
+_READ_ONLY = frozenset(['os.listdir', 'os.scandir'])
+_WRITE_FLAGS = os.O_WRONLY | os.O_RDWR | os.O_CREAT | os.O_TRUNC | os.O_APPEND
+_AUDIT = {'watch': None, 'installed': False}
+
+
+def _audit_hook(event, args):
+    watch = _AUDIT['watch']
+    if watch is None or watch.busy or event not in FS_EVENTS:
+        return
+    watch.event(event, args)
+
+
+class AuditWatch(object):
+    """While active, every file system operation that names a path below the
+    cache directory (or works on an open descriptor) is a point of `ctl`:
+    the directory is observed, and mutating operations can be made to fail.
+    Nothing of treadmill is replaced for this."""
+
+    def __init__(self, world, ctl, raisable=False):
+        self.world = world
+        self.ctl = ctl
+        self.raisable = raisable
+        self.busy = False
+        self.prefix = world.cache.rstrip('/')
+        self.mutations = 0
+
+    def __enter__(self):
+        if not _AUDIT['installed']:
+            sys.addaudithook(_audit_hook)
+            _AUDIT['installed'] = True
+        _AUDIT['watch'] = self
+        return self
+
+    def __exit__(self, *exc):
+        _AUDIT['watch'] = None
+        return False
+
+    def _relevant(self, args):
+        for arg in args:
+            if isinstance(arg, bytes):
+                arg = os.fsdecode(arg)
+            if isinstance(arg, str):
+                if arg == self.prefix or arg.startswith(self.prefix + '/'):
+                    return True
+            elif isinstance(arg, int) and not isinstance(arg, bool) and \
+                    arg is args[0]:
+                return True       # operation on a descriptor
+        return False
+
+    def event(self, event, args):
+        if not self._relevant(args):
+            return
+        mutating = event not in _READ_ONLY
+        if event == 'open':
+            mode, flags = (list(args) + [None, None])[1:3]
+            if isinstance(args[0], int):
+                mutating = False          # wraps an existing descriptor
+            elif isinstance(mode, str):
+                mutating = any(char in mode for char in 'wax+')
+            else:
+                mutating = bool((flags or 0) & _WRITE_FLAGS)
+        if mutating:
+            self.mutations += 1
+        self.busy = True
+        try:
+            self.ctl.point('fs:' + event,
+                           raisable=self.raisable and mutating)
+        finally:
+            self.busy = False
+
+
+class _NoSleep(object):
+    """`time` of eventmgr during run(): the heartbeat sleep returns at once."""
+
+    def sleep(self, _seconds):
+        return None
+
+    def __getattr__(self, name):
+        import time as real_time
+        return getattr(real_time, name)
+
+
+def run_once(world):
+    """The real EventMgr.run(once=True): presence watch, placement watch with
+    the first synchronisation, ready notifications, heartbeat. Replaced:
+    context.GLOBAL.zk (the fake client), eventmgr.time.sleep, and
+    utils.exit_on_unhandled (so a failure propagates instead of os._exit)."""
+    saved_zk = context.GLOBAL.zk
+    saved_time = eventmgr.time
+    saved_exit = utils.exit_on_unhandled
+    context.GLOBAL.zk = types.SimpleNamespace(conn=world.zk)
+    eventmgr.time = _NoSleep()
+    utils.exit_on_unhandled = lambda func: func
+    try:
+        world.evmgr.run(once=True)
+    finally:
+        context.GLOBAL.zk = saved_zk
+        eventmgr.time = saved_time
+        utils.exit_on_unhandled = saved_exit
+
+
+def agent_step(world, step, ctl, raisable=False):
+    """One thing the node agent does, with every fs operation observed."""
+    # pylint: disable=protected-access
+    try:
+        with AuditWatch(world, ctl, raisable) as watch:
+            if step == 'run_once':
+                run_once(world)
+            elif step == 'notify_ready':
+                world.evmgr._cache_notify(True)
+            elif step == 'notify_stale':
+                world.evmgr._cache_notify(False)
+            elif step == 'sync':
+                world.evmgr._synchronize(world.zk, list(world.expected),
+                                         check_existing=True)
+            else:
+                raise AssertionError('unknown step %r' % (step,))
+    finally:
+        # a violation seen at a point wins over whatever the unwinding (or
+        # a handler in the code under test) turned it into
+        if ctl.violation is not None:
+            raise ctl.violation
+    return watch.mutations
+
+
 def synchronize(world, ctl):
-    """Run the real _synchronize under the hooks."""
-    with Hooks(ctl):
-        # pylint: disable=protected-access
-        world.evmgr._synchronize(
-            world.zk, list(world.expected),
-            check_existing=bool(world.case.get('check_existing')))
+    """Run the real _synchronize under the hooks; the audit watch also looks
+    at the directory after every other operation (unlink of extras, ...)."""
+    try:
+        with Hooks(ctl), AuditWatch(world, ctl, raisable=False):
+            # pylint: disable=protected-access
+            world.evmgr._synchronize(
+                world.zk, list(world.expected),
+                check_existing=bool(world.case.get('check_existing')))
+    finally:
+        if ctl.violation is not None:
+            raise ctl.violation
 
 
 def check_after_sync(world, stats):
